@@ -282,3 +282,64 @@ def wrap_jobs(ctx, spec, cfg, lengths, timeout=400, mem_mb=10000, witness_len=No
                                    flex_input=g.ltext, flex_args=g.args))
             jobs.append(j)
     return jobs, g
+
+
+def iso_jobs(ctx, spec, cfg, lengths, timeout=400, mem_mb=10000, witness_len=None):
+    wd, g = _prep(ctx, spec, cfg, 'iso', extra_options=ALLOC_OPTS)
+    jobs = []
+    if not g.ok:
+        return jobs, g
+    for n in lengths:
+        for w in ([False, True] if witness_len == n else [False]):
+            src = os.path.join(wd, 'iso_n%d%s.c' % (n, '_w' if w else ''))
+            with open(src, 'w') as fh:
+                fh.write(H.iso_harness(g, cfg, spec, n, witness=w))
+            j = cbmc.Job('iso_%s_%s_n%d%s' % (spec.name, cfg.name, n, '_w' if w else ''), wd, [src], scanner_bounds(g, n, 1),
+                         includes=[wd, H.HDIR], harness_bound=None, timeout=timeout, mem_mb=mem_mb, gen_file=g.cpath,
+                         expect='witness' if w else 'proved',
+                         meta=dict(engine='E4', entry=spec.name, config=cfg.name, bound='two instances, %d bytes each, one step each' % n,
+                                   flex_input=g.ltext, flex_args=g.args))
+            jobs.append(j)
+    return jobs, g
+
+
+def tables_jobs(ctx, spec, cfg, depth, e1_lengths=(), timeout=600, mem_mb=12000, witness=False):
+    """The same E2/E1 obligations on a scanner whose tables are loaded from the
+    --tables-file flex wrote (C15)."""
+    wd = ctx.subdir('%s__%s__tbl' % (spec.name, cfg.name))
+    tcfg = H.Config(cfg.name, cfg.flags, list(cfg.options) + ['tables-file="scanner.tables"'], cfg.api)
+    g = H.gen_scanner(ctx.ensure_tree(), wd, spec, tcfg, extra_options=ALLOC_OPTS)
+    hdr = os.path.join(wd, 'vp_harness.h')
+    if not os.path.exists(hdr):
+        shutil.copy(os.path.join(H.HDIR, 'vp_harness.h'), hdr)
+    jobs = []
+    tpath = os.path.join(wd, 'scanner.tables')
+    if not g.ok or not os.path.exists(tpath):
+        g.ok = False
+        return jobs, g
+    nbytes = os.path.getsize(tpath)
+    b = scanner_bounds(g, depth, 0)
+    if cfg.table_kind != 'fullspd' and depth:
+        for w in ([False, True] if witness else [False]):
+            txt, _ = H.with_tables(H.e2_harness(g, tcfg, spec, depth, witness_len=(1 if w else None), use_acclist=H.has_name(g, 'yy_acclist')), g, tpath)
+            src = os.path.join(wd, 'tbl_e2_d%d%s.c' % (depth, '_w' if w else ''))
+            with open(src, 'w') as fh:
+                fh.write(txt)
+            j = cbmc.Job('tbl_e2_%s_%s_d%d%s' % (spec.name, cfg.name, depth, '_w' if w else ''), wd, [src], b, includes=[wd, H.HDIR],
+                         harness_bound=nbytes + 8, default_bound=nbytes + 8, timeout=timeout, mem_mb=mem_mb, gen_file=g.cpath,
+                         expect='witness' if w else 'proved',
+                         meta=dict(engine='E2', entry=spec.name, config=cfg.name + '+tables-file', bound='depth<=%d, %d-byte tables file' % (depth, nbytes),
+                                   flex_input=g.ltext, flex_args=g.args))
+            jobs.append(j)
+    for n in e1_lengths:
+        txt, _ = H.with_tables(H.e1_harness(g, tcfg, spec, n, min(1, n)), g, tpath)
+        src = os.path.join(wd, 'tbl_e1_n%d.c' % n)
+        with open(src, 'w') as fh:
+            fh.write(txt)
+        j = cbmc.Job('tbl_e1_%s_%s_n%d' % (spec.name, cfg.name, n), wd, [src], scanner_bounds(g, n, min(1, n)), includes=[wd, H.HDIR],
+                     harness_bound=nbytes + 8, default_bound=nbytes + 8, timeout=timeout, mem_mb=mem_mb, gen_file=g.cpath,
+                     meta=dict(engine='E1', entry=spec.name, config=cfg.name + '+tables-file', bound='len=%d nul<=%d' % (n, min(1, n)),
+                               flex_input=g.ltext, flex_args=g.args))
+        jobs.append(j)
+    ctx.functions.update(['yytables_fload', 'yytbl_hdr_read', 'yytbl_data_load', 'yytbl_fload', 'yy_get_previous_state'])
+    return jobs, g
